@@ -42,6 +42,12 @@ OSN = ['OSAny', 'OSLinux', 'OSWindows', 'OSMac', 'OSUnix']
 NETN = ['NetworkAny', 'NetworkOffline', 'NetworkOnline']
 
 
+def _seq(s):
+    def one(x):
+        return [(unhex(n) if len(n) > 3 else n) for n in x.split(',')] if x not in ('-', '') else []
+    return [one(x) for x in (s or '').split('|')]
+
+
 def caps_str(c):
     try:
         return '{OS:%s Network:%s DirectFS:%s RunningSystem:%s}' % (OSN[int(c[0])], NETN[int(c[1])], c[2] == '1', c[3] == '1')
@@ -59,7 +65,8 @@ def run(ctx):
                        'the registry is the one of the linux build of /repo (platform-specific plugin files select their linux or dummy variant)',
                        'Go map iteration order is unspecified: results of FromNames / FromCapabilities are compared as sets (every key has members with distinct names: C19_tables_wellformed)',
                        'plugin initialisers are deterministic (calling one twice yields the same Name/Requirements)']
-    ctx.rule = ('exhaustive in both tiers: val = all 60x60 (requirement, capability) pairs; fromcaps = 3 registries x 60 tuples; names = every registered key; name = every key of every '
+    ctx.rule = ('seq = operation sequences: the registry\'s all/default lists and FromCapabilities results filtered with every ordered pair of 10 capability tuples (and 3-4 in a row), hand-made lists '
+                'with 2-4 random tuples: every result, every EARLIER result re-read after the later calls and the input list afterwards must be what the pure model says; exhaustive in both tiers: val = all 60x60 (requirement, capability) pairs; fromcaps = 3 registries x 60 tuples; names = every registered key; name = every key of every '
                 'table looked up as an exact name in both extractor tables; pre = Scan\'s pre-check of the filtered/unfiltered registry and of each detector alone for all 60 tuples; '
                 'pref = a hand-made detector requiring each registered extractor x 2 detector requirements x 60 tuples; reqd = each detector; uniq. Random on top: name lists with '
                 'unknown names/duplicates, filters over hand-made lists, pre-checks of random selections. non-trivial = every case except val with the all-any requirement; '
@@ -120,6 +127,15 @@ def run(ctx):
                    ('requirement validation fails for %s' % unhexl(res[8:])) if res.startswith('invalid:') else res
             return 'scan configured from the capability-FILTERED selection fs=%s standalone=%s detectors=%s under %s: %s' % (
                 unhexl(t[3]), unhexl(t[4]), unhexl(t[5]), caps_str(t[2]), what)
+        if op == 'seq' and 'sr' in fm:
+            if fi.get('r') != fm['sr']:
+                return 'FilterByCapabilities(%s) on the SAME list for the capability tuples %s in a row: results %s, the satisfied plugins are %s (a filter must be a pure function of its arguments)' % (
+                    t[1], [caps_str(c) for c in t[3].split(';')], _seq(fi.get('r')), _seq(fm['sr']))
+            if fi.get('after') != fm['sr']:
+                return 'a result RETURNED EARLIER by FilterByCapabilities(%s) was rewritten by a later call on the same list (tuples %s): read again it is %s, it was %s' % (
+                    t[1], [caps_str(c) for c in t[3].split(';')], _seq(fi.get('after')), _seq(fm['sr']))
+            if fi.get('input') != fm.get('sinput'):
+                return 'FilterByCapabilities(%s) MUTATED its argument: the input list is %s afterwards, it was %s' % (t[1], _seq(fi.get('input')), _seq(fm.get('sinput')))
         if op == 'reqd' and fi.get('ok') != '1':
             bad = [(unhex(b.split('@')[0]), caps_str(b.split('@')[1]) if '@' in b else '') for b in fi.get('bad', '-').split(',') if b != '-']
             return 'detector %r: required extractor cannot be enabled automatically wherever the detector runs: %s' % (unhex(t[1]), bad[:4])
@@ -131,7 +147,7 @@ def run(ctx):
         return case.split(' ')[0] + ':' + (fi.get('res', fi.get('ok', fi.get('_', ''))).split(':')[0] or '-')[:10]
 
     lib.standard_stream(ctx, gen='c19gen', driver='drv_c19', gen_args=['-seed', str(ctx.seed), '-n', str(n), '-tier', ctx.tier],
-                        compare_keys=['errs', 'ok', 'names', 'kept', 'res', 'fs', 'st', 'n', 'dup'], nontrivial=nontrivial, oracle=oracle, classify=classify,
+                        compare_keys=['errs', 'ok', 'names', 'kept', 'res', 'fs', 'st', 'n', 'dup', 'r', 'after', 'input'], nontrivial=nontrivial, oracle=oracle, classify=classify,
                         sample_every=997)
     if not proofs_ok:
         lib.proof_failed(ctx, 'Scalibr.Properties.C19' + (': ' + ', '.join(failed) if failed else ''))
